@@ -54,11 +54,22 @@ except ValueError as e:
     print("(a) existing cells: refused (%s)" % e)
 A = m.new_space("A"); B = m.new_space("B", bases=[A]); B.foo = 1
 attempt("(b) reference in a sub space", A, B, formula=SRC)
+
+
+def foo(x):
+    return x
+
+
+A1 = m.new_space("A1"); B1 = m.new_space("B1", bases=[A1]); B1.foo = 1
+attempt("(b) function object, reference in a sub space", A1, B1, formula=foo)
+A0 = m.new_space("A0"); B0 = m.new_space("B0", bases=[A0]); B0.new_space("foo")
+attempt("(b) function object, child space in a sub space", A0, B0, formula=foo)
 A2 = m.new_space("A2"); B2 = m.new_space("B2", bases=[A2]); B2.foo = 1
 attempt("(b) invalid explicit name, reference in a sub space", A2, B2, name="for", formula=SRC)
 A3 = m.new_space("A3"); B3 = m.new_space("B3", bases=[A3]); B3.Cells1 = 1
 attempt("(c) auto-generated name, reference in a sub space", A3, B3, name="for")
-attempt("(c) auto-generated name, no name at all", A3, B3)
+A4 = m.new_space("A4"); B4 = m.new_space("B4", bases=[A4]); B4.new_space("Cells1")
+attempt("(c) auto-generated name, no name at all, child space in a sub space", A4, B4)
 
 # what must keep working: unnamed cells are named after the formula / automatically
 F = m.new_space("F")
